@@ -1058,7 +1058,7 @@ def len_lit(n):
     if v is not None:
         return v
     n = FL.peel(n)
-    if F.is_call(n, "core::str::<impl str>::len") and len(n["args"]) == 1:
+    if F.is_call(n, "core::str::<impl str>::len", "core::char::methods::<impl char>::len_utf8", "std::char::methods::<impl char>::len_utf8") and len(n["args"]) == 1:
         sl = str_lit(n["args"][0])
         if sl is not None:
             return len(sl.encode("utf-8"))
